@@ -111,6 +111,8 @@ type cnNet struct {
 	rhPrev       map[string]hash.Hash                      // runtime -> encoded hash of its latest block (for commitments)
 	vrfAlpha     []byte                                    // VRF backend: the alpha proofs are currently collected for
 	vrfPrevAlpha []byte                                    // the alpha of the epoch before
+	noRtMsgs     bool                                      // no messages emitted by runtimes
+	statRtMsgs   int                                       // messages carried by the scheduler commitments built so far
 	vaultAddr    map[string]staking.Address                // vault name (V0, V1, ...) -> address, in order of appearance in the state
 }
 
